@@ -198,6 +198,82 @@ Print BAD_ACCEPT. Print BAD_C01. Print BAD_C02. Print BAD_C03. Print BAD_C04. Pr
 """
 
 
+def nested_cli(ctx, res):
+    """C01 through the binary with NESTED pipelines whose stages reuse the names of the enclosing pipeline's stages (the default
+    when stages are named after their tasks): in every pipeline instance a stage starts only after its dependencies have ended,
+    an including stage counts as ended when every stage of the included pipeline has."""
+    import clilib
+    rng = vlib.rng_for(ctx.seed, "C01nested")
+    jobs = []
+    pool = ["build", "test", "deploy", "lint"]
+    for k in range(40 if ctx.tier == "thorough" else 10):
+        tasks, pipes = {}, {}
+
+        def mk(pipe, name, dur):
+            tn = "%s_%s" % (pipe, name)
+            tasks[tn] = {"command": ['echo "start %s %s" >> "$PROJ/trace"; sleep %s; echo "end %s %s" >> "$PROJ/trace"' % (pipe, name, dur, pipe, name)]}
+            return tn
+        inner_names = rng.sample(pool, rng.randint(1, 3))
+        inner = []
+        for i, n in enumerate(inner_names):
+            st = {"name": n, "task": mk("in", n, rng.choice(["0.02", "0.05", "0.1"]))}
+            deps = [m for m in inner_names[:i] if rng.random() < 0.5]
+            if deps:
+                st["depends_on"] = deps
+            inner.append(st)
+        pipes["pin"] = inner
+        outer_names = rng.sample(pool, rng.randint(2, 4))
+        outer = []
+        for i, n in enumerate(outer_names):
+            # an outer stage sharing its name with an inner one is slow: it ends after the inner one
+            st = {"name": n, "task": mk("out", n, rng.choice(["0.4", "0.6"]) if n in inner_names else rng.choice(["0.05", "0.2"]))}
+            deps = [m for m in outer_names[:i] if rng.random() < 0.5]
+            if deps:
+                st["depends_on"] = deps
+            outer.append(st)
+        inc = {"name": "included", "pipeline": "pin"}
+        d = [m for m in outer_names if rng.random() < 0.3]
+        if d:
+            inc["depends_on"] = d
+        outer.insert(rng.randint(0, len(outer)), inc)
+        # somebody waits for a slow outer stage that has an inner namesake
+        shared = [n for n in outer_names if n in inner_names]
+        last = {"name": "final", "task": mk("out", "final", "0.02"), "depends_on": sorted(set(shared + (["included"] if rng.random() < 0.5 else []))) or [outer_names[0]]}
+        outer.append(last)
+        pipes["pout"] = outer
+        jobs.append({"id": len(jobs), "files": {"cfg.json": clilib.jcfg({"tasks": tasks, "pipelines": pipes})}, "argv": ["-c", "cfg.json", "--raw", "run", "pipeline", "pout"],
+                     "keep": ["trace"], "timeout": 30, "pipes": pipes})
+    out = clilib.run_cli(ctx.workdir + "/nested", jobs, timeout=30)
+    for j in jobs:
+        r = out[j["id"]]
+        res.evaluations += 1
+        res.count("nested-cli")
+        res.nontrivial_keys.add(json.dumps(j["pipes"], sort_keys=True))
+        case = {"kind": "nested-cli", "pipelines": j["pipes"]}
+        if r["timeout"] or clilib.crashed(r) or r["rc"] != 0:
+            res.violations.append({"class": None, "what": "running a pipeline with a nested pipeline failed, hung or crashed", "case": case, "observed": {"rc": r["rc"], "err": (r.get("err") or "")[-600:]}})
+            continue
+        lines = [l.split() for l in (r["files"].get("trace") or "").split("\n") if l.strip()]
+        pos = {(kind, pipe, name): i for i, (kind, pipe, name) in enumerate(lines)}
+        inner_end = max([pos.get(("end", "in", st["name"]), -1) for st in j["pipes"]["pin"]] + [-1])
+        inner_start = min([pos.get(("start", "in", st["name"]), 10 ** 9) for st in j["pipes"]["pin"]] + [10 ** 9])
+
+        def ended(pipe, name):
+            return inner_end if (pipe == "out" and name == "included") else pos.get(("end", pipe, name), 10 ** 9)
+
+        def started(pipe, name):
+            return inner_start if (pipe == "out" and name == "included") else pos.get(("start", pipe, name), -1)
+        bad = None
+        for pipe, key in (("in", "pin"), ("out", "pout")):
+            for st in j["pipes"][key]:
+                for d in st.get("depends_on", []):
+                    if not started(pipe, st["name"]) > ended(pipe, d):
+                        bad = (pipe, st["name"], d)
+        if bad:
+            res.violations.append({"class": None, "what": "nested pipelines: stage `%s` of pipeline `%s` started before its dependency `%s` had finished" % (bad[1], bad[0], bad[2]),
+                                   "case": case, "observed": [" ".join(l) for l in lines]})
+
+
 def run(ctx, prop):
     res = vlib.Result()
     cases = ctx.replay_cases if ctx.replay_cases else gen_cases(ctx, prop)
@@ -293,4 +369,6 @@ def run(ctx, prop):
     res.extra["configurations"] = len(cases)
     res.samples = [{"stages": c["stages"], "decl": c["decl"], "choices": r["choices"], "trace": r["trace"], "fin": r["fin"], "err": r["err"]}
                    for c, r in runs[:1] + runs[len(runs) // 2: len(runs) // 2 + 1]]
+    if prop == "C01" and not ctx.replay_cases:
+        nested_cli(ctx, res)
     return res
